@@ -107,11 +107,18 @@ inductive SBlock (α : Type) where
   | step (items : List (SItem α))
   | sect (name : Option Text)
   | entry (key value : Text)
+  /-- a text paragraph (`>` block): the texts the parser delivers between `start text` and `end text` -/
+  | para (texts : List Text)
 
 def SBlock.events : SBlock α → List (Ev α)
   | .step st => stepEvents st
   | .sect name => [.section name]
   | .entry k v => [.metadata k v]
+  | .para ts => [Ev.start .text] ++ ts.map Ev.text ++ [Ev.stop .text]
+
+/-- the content a text paragraph adds: its texts joined; nothing when they are all empty -/
+def paraContent (ts : List Text) : List Content :=
+  if (ts.flatMap (·.text)).isEmpty then [] else [.text (ts.flatMap (·.text))]
 
 /-- a metadata entry that is neither a `[mode]` / `[define]` / `[duplicate]` switch (MODES) nor a
     standard key whose value is rejected, nor one of the three time keys -/
@@ -125,6 +132,7 @@ def SBlock.OK (env : Env) : SBlock α → Prop
   | .step st => (∀ it ∈ st, it.SimpleX env) ∧ st ≠ []
   | .sect _ => True
   | .entry k v => EntryPlain env k v
+  | .para _ => True
 
 /-- what a plain metadata entry does to the collector -/
 def entryEffect (env : Env) (k v : Text) (s : Col α) : Col α :=
@@ -276,6 +284,54 @@ theorem rts_entryEffect_base (env : Env) (k v : Text) (base : Col α) (hb : Base
   unfold entryEffect BaseOK
   cases StdKey.ofStr (String.ofList (k.trimmed env.cs)) <;> exact hb
 
+/-! ### text paragraphs -/
+
+theorem rts_para_texts (env : Env) (input : Str) (base : Col α) (rest : List (Ev α)) (before : List (SItem α))
+    (content : List Content) (n : Nat) :
+    ∀ (ts : List Text) (buf : Str),
+      parseEventsLoop env input (ts.map Ev.text ++ rest) (stOfX env base before content n (some (.text buf))) =
+        parseEventsLoop env input rest (stOfX env base before content n (some (.text (buf ++ ts.flatMap (·.text))))) := by
+  intro ts
+  induction ts with
+  | nil => intro buf; simp
+  | cons t r ih =>
+    intro buf
+    have hstep : (processEvent env input (.text t) (stOfX env base before content n (some (.text buf)))).2 =
+        stOfX env base before content n (some (.text (buf ++ t.text))) := by
+      have e : processEvent env input (.text t) (stOfX env base before content n (some (.text buf))) =
+          inStepText env t (stOfX env base before content n (some (.text buf))) := rfl
+      rw [e]
+      unfold inStepText
+      simp [bind, StateT.bind, get, getThe, MonadStateOf.get, StateT.get, pure, StateT.pure, stOfX, modify, modifyGet,
+        MonadStateOf.modifyGet, StateT.modifyGet]
+    rw [List.map_cons, List.cons_append, parseEventsLoop_cons_nonerror env input _ _ _ (by rintro ⟨d, h⟩; cases h), hstep,
+      ih]
+    simp [List.append_assoc]
+
+/-- one text paragraph: its joined text is appended to the current section (nothing if it is empty); the
+    step counter does not move -/
+theorem rts_para (env : Env) (input : Str) (base : Col α) (hb : BaseOK base) (rest : List (Ev α)) (ts : List Text)
+    (before : List (SItem α)) (content : List Content) (n : Nat) :
+    parseEventsLoop env input (([Ev.start .text] ++ ts.map Ev.text ++ [Ev.stop .text]) ++ rest)
+        (stOfX env base before content n none) =
+      parseEventsLoop env input rest (stOfX env base before (content ++ paraContent ts) n none) := by
+  have e : ([Ev.start .text] ++ ts.map Ev.text ++ [Ev.stop .text]) ++ rest =
+      Ev.start .text :: (ts.map Ev.text ++ (Ev.stop .text :: rest)) := by simp
+  have hstart : (processEvent env input (.start .text) (stOfX env base before content n none)).2 =
+      stOfX env base before content n (some (.text [])) := by
+    simp [processEvent, modify, modifyGet, MonadStateOf.modifyGet, StateT.modifyGet, stOfX, pure, StateT.pure, hb.1]
+  have hstop : ∀ buf, (processEvent env input (.stop .text) (stOfX env base before content n (some (.text buf)))).2 =
+      stOfX env base before (content ++ (if buf.isEmpty then [] else [.text buf])) n none := by
+    intro buf
+    by_cases hbuf : buf.isEmpty = true <;>
+      simp [processEvent, endBlock, endBlockContent, pushContent, Content.isStep, Content.isEmptyContent, hbuf, bind,
+        StateT.bind, get, getThe, MonadStateOf.get, StateT.get, pure, StateT.pure, modify, modifyGet,
+        MonadStateOf.modifyGet, StateT.modifyGet, stOfX, hb.1]
+  rw [e, parseEventsLoop_cons_nonerror env input _ _ _ (by rintro ⟨d, h⟩; cases h), hstart,
+    rts_para_texts env input base _ before content n ts [],
+    parseEventsLoop_cons_nonerror env input _ _ _ (by rintro ⟨d, h⟩; cases h), hstop]
+  simp [paraContent]
+
 /-! ### the intended result -/
 
 /-- all step items of the document, in order -/
@@ -302,6 +358,7 @@ def docSecs (env : Env) (before : List (SItem α)) (cur : Section) (num : Nat) :
   | .sect name :: r =>
     (if cur.isEmpty then [] else [cur]) ++ docSecs env before ⟨name.map (·.trimmed env.cs), []⟩ 1 r
   | .entry _ _ :: r => docSecs env before cur num r
+  | .para ts :: r => docSecs env before ⟨cur.name, cur.content ++ paraContent ts⟩ num r
 
 /-- the `>>` map: entries inserted in order, a repeated key keeps its place and takes the new value -/
 def docMeta (env : Env) (m : List (Str × Str)) (es : List (Text × Text)) : List (Str × Str) :=
@@ -408,6 +465,13 @@ theorem rts_loop_doc (env : Env) (input : Str) :
         · rw [a5, e3]; rfl
         · rw [a6, e4]; simp [docEntries, docSpans]
         · rw [a7, e4, e5]; simp [docEntries, docSpans]
+
+    | para ts =>
+      obtain ⟨c, h1, h2⟩ := ih hr base hb before (content ++ paraContent ts) n
+      refine ⟨c, ?_, ?_⟩
+      · rw [List.flatMap_cons, SBlock.events, rts_para env input base hb _ ts, h1]
+      · obtain ⟨a1, a2, a3, a4, a5, a6, a7, a8, a9⟩ := h2
+        exact ⟨by rw [a1]; rfl, a2, a3, a4, a5, a6, a7, a8, a9⟩
 
 /-- **analysis layer, documents with sections and metadata** -/
 theorem rts_parseEvents_doc (env : Env) (input : Str) (blocks : List (SBlock α)) (hok : ∀ b ∈ blocks, b.OK env) :
